@@ -20,6 +20,9 @@ import (
 //	blueprint-executed-library-changed
 //	                            ... then a rule was removed from the library and a copy of another rule (same
 //	                            condition and actions, new name) was built into it, then the instance was created
+//	rule-replaced-in-library    a rule was removed from the library and built again under the same name (first / last rule)
+//	blueprint-runs-rule-replaced-twice
+//	                            the blueprint itself runs; between its runs the last rule is replaced by an identical one, twice
 type histVariant struct {
 	label string
 	tr    *hx.Trace
@@ -109,6 +112,50 @@ func historyVariants(c *Case, b *hx.Built, prog *hx.Program, mk func() *ref.Worl
 					out = append(out, histVariant{"blueprint-executed-library-changed", hx.Run(lb2, w, o), w, &c2})
 				}
 			}
+		}
+	}
+	// 4. a rule replaced by an identical one in the library (removed, then built again under the same name), then
+	// the instance; for the first and the last rule
+	for _, x := range []string{c.Rules[0].Name, last} {
+		lb, err := hx.Build(prog)
+		if err != nil {
+			continue
+		}
+		lb.Lib.RemoveRuleEntry(x, hx.KBName, hx.KBVer)
+		if err := builder.NewRuleBuilder(lb.Lib).BuildRuleFromResource(hx.KBName, hx.KBVer, pkg.NewBytesResource([]byte(grl.PrintRules([]*grl.Rule{prog.ByName[x]}, c.Style)))); err != nil {
+			tr := &hx.Trace{MaxCycle: c.Opts.MaxCycle, Err: err, Protocol: []string{"building a rule again after it was removed failed: " + err.Error()}}
+			out = append(out, histVariant{"rule-replaced-in-library", tr, mk(), c})
+			continue
+		}
+		if inst, err := lb.Instance(); err == nil {
+			o := c.Opts
+			o.KB = inst
+			w := mk()
+			out = append(out, histVariant{"rule-replaced-in-library", hx.Run(lb, w, o), w, c})
+		}
+		if x == last {
+			break
+		}
+	}
+	// 5. the blueprint itself is what runs; between its runs the last rule is replaced by an identical one, twice
+	if lb, err := hx.Build(prog); err == nil {
+		bp := lb.Lib.GetKnowledgeBase(hx.KBName, hx.KBVer)
+		o := c.Opts
+		o.KB = bp
+		ok := true
+		for k := 0; k < 2 && ok; k++ {
+			if first := hx.Run(lb, mk(), o); first.Panic != nil {
+				ok = false
+				break
+			}
+			bp.RemoveRuleEntry(last)
+			if err := builder.NewRuleBuilder(lb.Lib).BuildRuleFromResource(hx.KBName, hx.KBVer, pkg.NewBytesResource([]byte(grl.PrintRules([]*grl.Rule{prog.ByName[last]}, c.Style)))); err != nil {
+				ok = false
+			}
+		}
+		if ok {
+			w := mk()
+			out = append(out, histVariant{"blueprint-runs-rule-replaced-twice", hx.Run(lb, w, o), w, c})
 		}
 	}
 	return out
